@@ -52,7 +52,15 @@ Inductive ctx :=
 | CStrRepeatR    (* name = L * "-"      *)
 | CDictKeys      (* name = {L: "k0", L: "k1"} *)
 | CTsEnum        (* enum E { M0 = L, M1 = L } *)
-| CRsStatic.     (* static NAME: i64 = L; *)
+| CRsStatic      (* static NAME: i64 = L; *)
+| CInterp        (* name = f'v{L}'      let name = `v${L}`; *)
+| CDecorator     (* @name(L, L) / def g(): pass *)
+| CNested        (* name = [[L, L]]     *)
+| CMatch         (* match x: / case L: pass     switch (x) { case L: break; }     match x { L => {}, _ => {} } *)
+| CKwarg         (* name(key=L)         *)
+| CIndex         (* name = x[L]         *)
+| CLambda        (* name = lambda y: y + L     let name = (y) => y + L;     let name = |y| y + L; *)
+| CMacro.        (* name!(L, L);        *)
 
 Record site := mk_site { s_ctx : ctx; s_name : string; s_lits : list lit; s_line : nat }.
 
@@ -66,12 +74,34 @@ Record scope := mk_scope {
 
 Record file := mk_file { f_name : string; f_scopes : list scope }.
 
-Record mconfig := mk_cfg { c_allowed : option (list num); c_max_small : option Z }.
+(* the magic-numbers section: its top-level keys and, when present, the sub-section of the file's language
+   (python / typescript / javascript / rust), each key optional *)
+Record mconfig := mk_cfg {
+  c_allowed : option (list num);
+  c_max_small : option Z;
+  c_lang : option (option (list num) * option Z) }.
 
-Definition allowed (cfg : mconfig) : list num :=
-  map norm (match c_allowed cfg with Some l => l | None => default_allowed_numbers end).
+(* MagicNumberConfig.from_dict: the sources consulted, in the order read from the source *)
+Fixpoint resolve {A} (chain : list string) (lang top : option A) (dflt : A) : A :=
+  match chain with
+  | [] => dflt
+  | s :: r =>
+    if String.eqb s "lang" then match lang with Some x => x | None => resolve r lang top dflt end
+    else if String.eqb s "top" then match top with Some x => x | None => resolve r lang top dflt end
+    else dflt
+  end.
+
+Definition raw_allowed (cfg : mconfig) : list num :=
+  match c_lang cfg with
+  | Some (la, _) => resolve cfg_allowed_chain_lang la (c_allowed cfg) default_allowed_numbers
+  | None => resolve cfg_allowed_chain_top None (c_allowed cfg) default_allowed_numbers
+  end.
+Definition allowed (cfg : mconfig) : list num := map norm (raw_allowed cfg).
 Definition max_small (cfg : mconfig) : Z :=
-  match c_max_small cfg with Some z => z | None => default_max_small_integer end.
+  match c_lang cfg with
+  | Some (_, lm) => resolve cfg_max_small_chain_lang lm (c_max_small cfg) default_max_small_integer
+  | None => resolve cfg_max_small_chain_top None (c_max_small cfg) default_max_small_integer
+  end.
 
 (* a report: line and the value named in the message *)
 Inductive rval := RNum (v : num) | RBool (b : bool).
@@ -164,7 +194,14 @@ Definition py_ctx_chain (c : ctx) (name : string) (l : lit) : list pyanc :=
   | CStrRepeatL => [ABinOp "Mult" true (lit_is_str l); asg]
   | CStrRepeatR => [ABinOp "Mult" (lit_is_str l) true; asg]
   | CDictKeys => [ADict true; asg]
-  | CTsEnum | CRsStatic => [AOther "<none>"]
+  | CInterp => [AOther "FormattedValue"; AOther "JoinedStr"; asg]
+  | CDecorator => [ACall (Some name); AOther "FunctionDef"]
+  | CNested => [AOther "List"; AOther "List"; asg]
+  | CMatch => [AOther "MatchValue"; AOther "match_case"; AOther "Match"]
+  | CKwarg => [AOther "keyword"; ACall (Some name); AOther "Expr"]
+  | CIndex => [AOther "Subscript"; asg]
+  | CLambda => [ABinOp "Add" false (lit_is_str l); AOther "Lambda"; asg]
+  | CTsEnum | CRsStatic | CMacro => [AOther "<none>"]
   end.
 
 (* the ast.Constant of a literal (an identifier is a Name, not a Constant) *)
@@ -315,6 +352,11 @@ Definition ts_ctx_chain (c : ctx) (name : string) : list tsanc :=
   | CBinop | CMul => tn "binary_expression" :: ts_decl name
   | CNeg | CUpperNeg => tn "unary_expression" :: ts_decl name
   | CTsEnum => tnames ["enum_assignment"; "enum_body"; "enum_declaration"]
+  | CInterp => tnames ["template_substitution"; "template_string"] ++ ts_decl name
+  | CNested => tnames ["array"; "array"] ++ ts_decl name
+  | CMatch => tnames ["switch_case"; "switch_body"; "switch_statement"]
+  | CIndex => tn "subscript_expression" :: ts_decl name
+  | CLambda => tnames ["binary_expression"; "arrow_function"] ++ ts_decl name
   | _ => [tn "<none>"]
   end.
 
@@ -424,6 +466,11 @@ Definition rs_ctx_chain (c : ctx) : list rsanc :=
   | CUpperNeg => rnames ["unary_expression"; "const_item"]
   | CUpperTuple => rnames ["array_expression"; "reference_expression"; "const_item"]
   | CRsStatic => rnames ["static_item"]
+  | CMacro => rnames ["token_tree"; "macro_invocation"; "expression_statement"]
+  | CNested => rnames ["array_expression"; "array_expression"; "let_declaration"]
+  | CMatch => rnames ["match_pattern"; "match_arm"; "match_block"; "match_expression"; "expression_statement"]
+  | CIndex => rnames ["index_expression"; "let_declaration"]
+  | CLambda => rnames ["binary_expression"; "closure_expression"; "let_declaration"]
   | _ => rnames ["<none>"]
   end.
 
